@@ -7,6 +7,7 @@ code's IR is not Compile(ParseText(text)); because ParseText ignores spelling by
 accepted canonical text is a spelling-dependent meaning (C09), a rejected canonical text a wrong parse (C01)."""
 from __future__ import annotations
 import json
+import os
 import random
 
 from . import common, gen, irproj, sel as selmod, trace
@@ -24,11 +25,16 @@ HARD = [r'\64 iv', r'd\69v', r'\000064iv', '\\64\niv', r'.\31 a', r'#\#x', r'[\7
         'a:not(b):is(c):where(d):matches(e)', ':matches(a,b)', ':has(a):has(b)', 'a.b.c#d#e[f][g=h]', '*', '*.a', 'a *', ':is(*)', ':not(*|*)',
         ':nth-child(1 of *)', 'a:nth-child(2):nth-last-child(2)', ':lang(en)', ':lang("en", de-DE)', ":lang( 'x y' /**/,/**/ \\64 e )", ':LANG("")',
         ':-soup-contains(x)', ':-soup-contains-own("x y", z)', ':-SOUP-CONTAINS( a , b )', ':dir(ltr)', ':DIR( RTL )', 'p:dir(rtl):lang(en):-soup-contains(x) > a',
-        ':not(:lang(en), :dir(ltr))', ':-soup-contains("x\\\ny")', ':lang("*-ch", en-\\55 S)', ':lang(en /* de */, fr)', ':is(a  , b)', 'a  > b', 'p /* all */* > b /* end */', 'p[t/**/*="a"] ~ #i /**/']
+        ':not(:lang(en), :dir(ltr))', ':-soup-contains("x\\\ny")', ':lang("*-ch", en-\\55 S)', ':lang(en /* de */, fr)', ':checked', ':link', ':any-link', ':disabled', ':enabled', ':required', ':optional', ':read-write', ':read-only', ':default',
+        ':indeterminate', ':placeholder-shown', ':in-range', ':out-of-range', ':defined', 'input:CHECKED:not(:disabled) > a', ':is(:link, :default)',
+        ':has(> :read-only)', ':nth-child(2 of :enabled)', r':\63hecked', ':is(a  , b)', 'a  > b', 'p /* all */* > b /* end */', 'p[t/**/*="a"] ~ #i /**/']
 NS = {'ns': 'urn:n'}
 
 
 def part(chk, tier, label, n_quick=500, n_thorough=8000, seed=11):
+    from . import statedefs, tlc
+    if not os.path.basename(tlc.SPEC_DIR).startswith('verif_spec_'):
+        statedefs.use_tree_under_test()          # Trace_Parse expands the state pseudo-classes from the definition texts of the tree under test
     sv, bs4 = common.import_repo()
     from soupsieve import css_types as ct
     rng = random.Random(common.SEED * 7919 + seed)
@@ -43,7 +49,7 @@ def part(chk, tier, label, n_quick=500, n_thorough=8000, seed=11):
             for comp in cx['cs']:
                 if rng.random() < 0.3:
                     ex = gen.rand_extra(rng)
-                    while ex['k'] not in ('attr', 'none', 'amp', 'class', 'id', 'lang', 'contains', 'dir'):
+                    while ex['k'] == 'custom':
                         ex = gen.rand_extra(rng)
                     comp.append(ex)
                 if rng.random() < 0.15 and comp and comp[0]['k'] == 'type':
